@@ -1150,7 +1150,10 @@ class SolverReal(Family):
                     p = {"shape": rng.sample([2, 3, 4, 5], rng.choice([2, 3])), "rank": rng.randint(1, 2),
                          "sparse": sparse, "objective": obj, "lb": rng.choice(["0", "1/4", "-1/2"]),
                          "dseed": rng.randrange(10 ** 6), "seed": rng.randrange(10 ** 6),
-                         "fkind": fkind, "gkind": gkind, "fsamp": count(fkind, 3, 12), "gsamp": count(gkind, 2, 6),
+                         "fkind": fkind, "gkind": gkind, "fsamp": count(fkind, 3, 12),
+                         # sparse + uniform gradient sampler: the counts are Poisson draws around gsamp; an empty
+                         # gradient sample makes estimate() raise (error path, degenerate), so keep it unlikely
+                         "gsamp": rng.randint(14, 20) if (sparse and gkind == "uniform") else count(gkind, 2, 6),
                          "via": ["solve", "gcp_opt"][(nprob + ci) % 2]}
                     base = base or p
                 probs.append(p)
